@@ -72,10 +72,14 @@ def pattern_values(n, dtype, pat):
     c: small non-negative cycle                        (shift amounts, exponents)
     u: strictly inside (0,1)                           (probabilities, logit/acos domains)
     w: distinct values, no ties                        (sort/argmax/topk/max: tie-breaking is not part of the property)
+    v: odd multiples of 1/8 in [-2.125, 1.875], period 17, no zero   (conv / pooling operands: products and short
+       sums are exact even in float16, so the accumulation order of a kernel cannot show as a difference; the period
+       is coprime to the small widths used, so shifted windows see different values)
     """
     if dtype == "bool":
         cyc = {"a": [True, False, True, True, False], "b": [False, True, True, False, True],
-               "c": [True, False], "u": [True, False, False], "w": [False, True]}[pat]
+               "c": [True, False], "u": [True, False, False], "w": [False, True],
+               "v": [True, False, False, True, True]}[pat]
         return [cyc[i % len(cyc)] for i in range(n)]
     fl = dtype in _FLOATS
     if pat == "a":
@@ -110,6 +114,12 @@ def pattern_values(n, dtype, pat):
         if dtype == "u8":
             return [(i * 7 + 3) % 251 for i in range(n)]
         return [((-1) ** i) * (i + 1) for i in range(n)]
+    if pat == "v":
+        if fl:
+            return [(((i * 5 + 2) % 17) * 2 - 17) * 0.125 for i in range(n)]
+        if dtype == "u8":
+            return [(i * 5 + 2) % 17 for i in range(n)]
+        return [(i * 5 + 2) % 17 - 8 for i in range(n)]
     raise ValueError(pat)
 
 
